@@ -135,6 +135,9 @@ func (cache *HevcCache) getPalyloadType(payload []byte) (vps, sps, pps, islice b
 		off := 2
 		// 循环读取被封装的NAL
 		for {
+			if off+2 >= len(payload) { // 被截断的聚合包
+				return
+			}
 			// nal长度
 			nalSize := ((uint16(payload[off])) << 8) | uint16(payload[off+1])
 			if nalSize < 1 {
